@@ -63,6 +63,8 @@ theorem Form.self_mem_subs (g : Form) : g ∈ g.subs := by
 theorem Form.subs_trans {f : Form} : ∀ {g : Form}, g ∈ f.subs → ∀ h ∈ g.subs, h ∈ f.subs := by
   induction f with
   | atom n => intro g hg h hh; simp only [Form.subs, List.mem_singleton] at hg; subst hg; exact hh
+  | tt => intro g hg h hh; simp only [Form.subs, List.mem_singleton] at hg; subst hg; exact hh
+  | ff => intro g hg h hh; simp only [Form.subs, List.mem_singleton] at hg; subst hg; exact hh
   | not a iha =>
     intro g hg h hh
     simp only [Form.subs, List.mem_append, List.mem_singleton] at hg ⊢
@@ -77,119 +79,234 @@ theorem Form.subs_trans {f : Form} : ∀ {g : Form}, g ∈ f.subs → ∀ h ∈ 
     · exact Or.inl (Or.inr (ihb hg h hh))
     · simpa [Form.subs, or_assoc] using hh
 
+theorem Form.children_sub (g : Form) : ∀ c ∈ g.children, c ∈ g.subs := by
+  cases g <;> simp [Form.children, Form.subs, Form.self_mem_subs]
+
+/-- names of a subterm are names of the formula -/
+theorem Form.names_of_subs {f : Form} : ∀ {g : Form}, g ∈ f.subs → ∀ m ∈ g.names, m ∈ f.names := by
+  induction f with
+  | atom n => intro g hg m hm; simp only [Form.subs, List.mem_singleton] at hg; subst hg; exact hm
+  | tt => intro g hg m hm; simp only [Form.subs, List.mem_singleton] at hg; subst hg; exact hm
+  | ff => intro g hg m hm; simp only [Form.subs, List.mem_singleton] at hg; subst hg; exact hm
+  | not a iha =>
+    intro g hg m hm
+    simp only [Form.subs, List.mem_append, List.mem_singleton] at hg
+    rcases hg with hg | rfl
+    · exact iha hg m hm
+    · exact hm
+  | and a b iha ihb | or a b iha ihb | imp a b iha ihb | iff a b iha ihb =>
+    intro g hg m hm
+    simp only [Form.subs, List.mem_append, List.mem_singleton] at hg
+    rcases hg with (hg | hg) | rfl
+    · simp only [Form.names, List.mem_append]; exact Or.inl (iha hg m hm)
+    · simp only [Form.names, List.mem_append]; exact Or.inr (ihb hg m hm)
+    · exact hm
+
 /-- a list of formulas closed under immediate subformulas -/
-def Closed (order : List Form) : Prop :=
-  (∀ a, Form.not a ∈ order → a ∈ order) ∧
-  (∀ a b, Form.and a b ∈ order → a ∈ order ∧ b ∈ order) ∧
-  (∀ a b, Form.or a b ∈ order → a ∈ order ∧ b ∈ order) ∧
-  (∀ a b, Form.imp a b ∈ order → a ∈ order ∧ b ∈ order) ∧
-  (∀ a b, Form.iff a b ∈ order → a ∈ order ∧ b ∈ order)
+def Closed (order : List Form) : Prop := ∀ g ∈ order, ∀ c ∈ g.children, c ∈ order
 
 theorem closed_of_same_subs {order : List Form} {f : Form} (h : ∀ g, g ∈ order ↔ g ∈ f.subs) :
-    Closed order := by
-  have key : ∀ g c, g ∈ order → c ∈ g.subs → c ∈ order :=
-    fun g c hg hc => (h c).mpr (Form.subs_trans ((h g).mp hg) c hc)
-  refine ⟨fun a ha => key _ a ha ?_, fun a b ha => ⟨key _ a ha ?_, key _ b ha ?_⟩,
-    fun a b ha => ⟨key _ a ha ?_, key _ b ha ?_⟩, fun a b ha => ⟨key _ a ha ?_, key _ b ha ?_⟩,
-    fun a b ha => ⟨key _ a ha ?_, key _ b ha ?_⟩⟩ <;>
-  simp [Form.subs, Form.self_mem_subs]
+    Closed order := fun g hg c hc =>
+  (h c).mpr (Form.subs_trans ((h g).mp hg) c (g.children_sub c hc))
 
-/-! ### equisatisfiability -/
+/-! ### equisatisfiability of the intended clause set -/
+
+/-- the clauses of all equations and the unit clause of the top variable -/
+def coreCNF (names : List Nat) (order : List Form) (f : Form) : CNF :=
+  order.flatMap (clausesOf names order) ++ [[(varOf names order f, true)]]
 
 /-- From a model of the CNF: every numbered subterm's variable has the value of the subterm under
 the valuation read off the atoms' variables. -/
-theorem var_eq_eval {order : List Form} {f : Form} {σ : Nat → Bool} (hc : Closed order)
-    (hs : Sat σ (tseitinWith order f)) :
-    ∀ g, g ∈ order → σ (varOf order g) = g.eval (fun a => σ (varOf order (.atom a))) := by
-  have hcl : ∀ g ∈ order, Sat σ (clausesOf order g) := by
+theorem var_eq_eval {names : List Nat} {order : List Form} {f : Form} {σ : Nat → Bool}
+    (hc : Closed order) (hs : Sat σ (coreCNF names order f)) :
+    ∀ g, g ∈ order → σ (varOf names order g) =
+      g.eval (fun a => σ (varOf names order (.atom a))) := by
+  have hcl : ∀ g ∈ order, Sat σ (clausesOf names order g) := by
     intro g hg cl hcl
     apply hs
-    simp only [tseitinWith, List.mem_append, List.mem_flatMap]
+    simp only [coreCNF, List.mem_append, List.mem_flatMap]
     exact Or.inl ⟨g, hg, hcl⟩
-  obtain ⟨c1, c2, c3, c4, c5⟩ := hc
   intro g
   induction g with
   | atom n => intro _; rfl
+  | tt =>
+    intro hg
+    obtain ⟨l, hl, hv⟩ := hcl _ hg [(varOf names order .tt, true)] (by simp [clausesOf])
+    simp only [List.mem_singleton] at hl; subst hl; exact hv
+  | ff =>
+    intro hg
+    obtain ⟨l, hl, hv⟩ := hcl _ hg [(varOf names order .ff, false)] (by simp [clausesOf])
+    simp only [List.mem_singleton] at hl; subst hl; exact hv
   | not a iha =>
     intro hg
     have := (sat_clausesNot σ _ _).mp (hcl _ hg)
-    rw [this, iha (c1 a hg)]; rfl
+    rw [this, iha (hc _ hg a (by simp [Form.children]))]; rfl
   | and a b iha ihb =>
     intro hg
     have := (sat_clausesAnd σ _ _ _).mp (hcl _ hg)
-    rw [this, iha (c2 a b hg).1, ihb (c2 a b hg).2]; rfl
+    rw [this, iha (hc _ hg a (by simp [Form.children])), ihb (hc _ hg b (by simp [Form.children]))]; rfl
   | or a b iha ihb =>
     intro hg
     have := (sat_clausesOr σ _ _ _).mp (hcl _ hg)
-    rw [this, iha (c3 a b hg).1, ihb (c3 a b hg).2]; rfl
+    rw [this, iha (hc _ hg a (by simp [Form.children])), ihb (hc _ hg b (by simp [Form.children]))]; rfl
   | imp a b iha ihb =>
     intro hg
     have := (sat_clausesImp σ _ _ _).mp (hcl _ hg)
-    rw [this, iha (c4 a b hg).1, ihb (c4 a b hg).2]; rfl
+    rw [this, iha (hc _ hg a (by simp [Form.children])), ihb (hc _ hg b (by simp [Form.children]))]; rfl
   | iff a b iha ihb =>
     intro hg
     have := (sat_clausesIff σ _ _ _).mp (hcl _ hg)
-    rw [this, iha (c5 a b hg).1, ihb (c5 a b hg).2]; rfl
+    rw [this, iha (hc _ hg a (by simp [Form.children])), ihb (hc _ hg b (by simp [Form.children]))]; rfl
 
-/-- the assignment giving every numbered subterm its value under `ρ` -/
-def extend (order : List Form) (ρ : Nat → Bool) (n : Nat) : Bool :=
-  match n with
-  | 0 => false
-  | k + 1 => match order[k]? with
-    | some g => g.eval ρ
-    | none => false
+/-- the assignment giving every named subterm its value under `ρ` -/
+def extend (names : List Nat) (order : List Form) (ρ : Nat → Bool) (x : Nat) : Bool :=
+  match order[names.idxOf x]? with
+  | some g => g.eval ρ
+  | none => false
 
-theorem extend_varOf {order : List Form} (ρ : Nat → Bool) {g : Form} (hg : g ∈ order) :
-    extend order ρ (varOf order g) = g.eval ρ := by
+theorem varOf_eq {names : List Nat} {order : List Form} (hlen : names.length = order.length)
+    {g : Form} (hg : g ∈ order) :
+    ∃ h : order.idxOf g < names.length, varOf names order g = names[order.idxOf g] := by
   have hlt : order.idxOf g < order.length := List.idxOf_lt_length_iff.mpr hg
-  simp only [extend, varOf]
-  rw [List.getElem?_eq_getElem hlt, List.getElem_idxOf hlt]
+  refine ⟨hlen ▸ hlt, ?_⟩
+  simp [varOf, List.getD_eq_getElem?_getD, List.getElem?_eq_getElem (hlen ▸ hlt)]
 
-theorem tseitinWith_equisat {order : List Form} {f : Form} (h : ∀ g, g ∈ order ↔ g ∈ f.subs) :
-    (∃ σ, Sat σ (tseitinWith order f)) ↔ (∃ ρ, f.eval ρ = true) := by
+theorem varOf_mem {names : List Nat} {order : List Form} (hlen : names.length = order.length)
+    {g : Form} (hg : g ∈ order) : varOf names order g ∈ names := by
+  obtain ⟨h, e⟩ := varOf_eq hlen hg
+  rw [e]; exact List.getElem_mem h
+
+theorem varOf_inj {names : List Nat} {order : List Form} (hlen : names.length = order.length)
+    (hn : names.Nodup) {g g' : Form} (hg : g ∈ order) (hg' : g' ∈ order)
+    (h : varOf names order g = varOf names order g') : g = g' := by
+  obtain ⟨h1, e1⟩ := varOf_eq hlen hg
+  obtain ⟨h2, e2⟩ := varOf_eq hlen hg'
+  rw [e1, e2] at h
+  have hi : order.idxOf g = order.idxOf g' := by
+    have a1 := hn.idxOf_getElem _ h1
+    have a2 := hn.idxOf_getElem _ h2
+    rw [h] at a1; rw [← a1, a2]
+  have b1 := List.getElem_idxOf (List.idxOf_lt_length_iff.mpr hg)
+  have b2 := List.getElem_idxOf (List.idxOf_lt_length_iff.mpr hg')
+  rw [← b1, ← b2]; simp [hi]
+
+theorem extend_varOf {names : List Nat} {order : List Form} (hlen : names.length = order.length)
+    (hn : names.Nodup) (ρ : Nat → Bool) {g : Form} (hg : g ∈ order) :
+    extend names order ρ (varOf names order g) = g.eval ρ := by
+  obtain ⟨h, e⟩ := varOf_eq hlen hg
+  have hlt : order.idxOf g < order.length := List.idxOf_lt_length_iff.mpr hg
+  simp only [extend, e, hn.idxOf_getElem _ h, List.getElem?_eq_getElem hlt, List.getElem_idxOf hlt]
+
+theorem coreCNF_equisat {names : List Nat} {order : List Form} {f : Form}
+    (h : ∀ g, g ∈ order ↔ g ∈ f.subs) (hlen : names.length = order.length) (hn : names.Nodup) :
+    (∃ σ, Sat σ (coreCNF names order f)) ↔ (∃ ρ, f.eval ρ = true) := by
   have hc := closed_of_same_subs h
   have hf : f ∈ order := (h f).mpr f.self_mem_subs
   constructor
   · rintro ⟨σ, hs⟩
-    refine ⟨fun a => σ (varOf order (.atom a)), ?_⟩
+    refine ⟨fun a => σ (varOf names order (.atom a)), ?_⟩
     rw [← var_eq_eval hc hs f hf]
-    obtain ⟨l, hl, hv⟩ := hs [(varOf order f, true)] (by simp [tseitinWith])
+    obtain ⟨l, hl, hv⟩ := hs [(varOf names order f, true)] (by simp [coreCNF])
     simp only [List.mem_singleton] at hl; subst hl; exact hv
   · rintro ⟨ρ, hρ⟩
-    refine ⟨extend order ρ, ?_⟩
+    refine ⟨extend names order ρ, ?_⟩
+    have ev : ∀ {g}, g ∈ order → extend names order ρ (varOf names order g) = g.eval ρ :=
+      fun hg => extend_varOf hlen hn ρ hg
     intro cl hcl
-    simp only [tseitinWith, List.mem_append, List.mem_flatMap, List.mem_singleton] at hcl
+    simp only [coreCNF, List.mem_append, List.mem_flatMap, List.mem_singleton] at hcl
     rcases hcl with ⟨g, hg, hcl⟩ | rfl
-    · obtain ⟨c1, c2, c3, c4, c5⟩ := hc
-      revert cl
-      show Sat (extend order ρ) (clausesOf order g)
+    · revert cl
+      show Sat (extend names order ρ) (clausesOf names order g)
+      have hch : ∀ c ∈ g.children, c ∈ order := hc g hg
       cases g with
       | atom n => intro cl hcl; simp [clausesOf] at hcl
+      | tt =>
+        intro cl hcl
+        simp only [clausesOf, List.mem_singleton] at hcl; subst hcl
+        exact ⟨_, List.mem_singleton.mpr rfl, by rw [ev hg]; rfl⟩
+      | ff =>
+        intro cl hcl
+        simp only [clausesOf, List.mem_singleton] at hcl; subst hcl
+        exact ⟨_, List.mem_singleton.mpr rfl, by rw [ev hg]; rfl⟩
       | not a =>
-        rw [clausesOf, sat_clausesNot, extend_varOf ρ hg, extend_varOf ρ (c1 a hg)]; rfl
+        rw [clausesOf, sat_clausesNot, ev hg, ev (hch a (by simp [Form.children]))]; rfl
       | and a b =>
-        rw [clausesOf, sat_clausesAnd, extend_varOf ρ hg, extend_varOf ρ (c2 a b hg).1,
-          extend_varOf ρ (c2 a b hg).2]; rfl
+        rw [clausesOf, sat_clausesAnd, ev hg, ev (hch a (by simp [Form.children])),
+          ev (hch b (by simp [Form.children]))]; rfl
       | or a b =>
-        rw [clausesOf, sat_clausesOr, extend_varOf ρ hg, extend_varOf ρ (c3 a b hg).1,
-          extend_varOf ρ (c3 a b hg).2]; rfl
+        rw [clausesOf, sat_clausesOr, ev hg, ev (hch a (by simp [Form.children])),
+          ev (hch b (by simp [Form.children]))]; rfl
       | imp a b =>
-        rw [clausesOf, sat_clausesImp, extend_varOf ρ hg, extend_varOf ρ (c4 a b hg).1,
-          extend_varOf ρ (c4 a b hg).2]; rfl
+        rw [clausesOf, sat_clausesImp, ev hg, ev (hch a (by simp [Form.children])),
+          ev (hch b (by simp [Form.children]))]; rfl
       | iff a b =>
-        rw [clausesOf, sat_clausesIff, extend_varOf ρ hg, extend_varOf ρ (c5 a b hg).1,
-          extend_varOf ρ (c5 a b hg).2]; rfl
-    · exact ⟨_, List.mem_singleton.mpr rfl, by rw [extend_varOf ρ hf]; exact hρ⟩
+        rw [clausesOf, sat_clausesIff, ev hg, ev (hch a (by simp [Form.children])),
+          ev (hch b (by simp [Form.children]))]; rfl
+    · exact ⟨_, List.mem_singleton.mpr rfl, by rw [ev hf]; exact hρ⟩
 
-theorem tseitinOrd_equisat (f : Form) (o : List Form) :
-    (∃ σ, Sat σ (tseitinOrd f o)) ↔ (∃ ρ, f.eval ρ = true) := by
-  unfold tseitinOrd
-  dsimp only
-  split
-  · rename_i hv
-    simp only [Bool.and_eq_true, List.all_eq_true, List.contains_iff_mem] at hv
-    exact tseitinWith_equisat fun g =>
-      ⟨fun hg => mem_dedupF.mp (hv.1 g hg), fun hg => hv.2 g (mem_dedupF.mpr hg)⟩
-  · exact tseitinWith_equisat fun g => mem_dedupF
+/-! ### the fresh names -/
+
+theorem le_sum_of_mem {l : List Nat} {u : Nat} (h : u ∈ l) : u ≤ l.sum := by
+  induction l with
+  | nil => cases h
+  | cons x xs ih =>
+    simp only [List.sum_cons]
+    rcases List.mem_cons.mp h with rfl | h
+    · omega
+    · have := ih h; omega
+
+theorem nextFree_ge (used : List Nat) : ∀ (fuel i : Nat), i ≤ nextFree used fuel i := by
+  intro fuel
+  induction fuel with
+  | zero => intro i; exact Nat.le_refl _
+  | succ k ih =>
+    intro i
+    unfold nextFree
+    split
+    · exact Nat.le_trans (Nat.le_succ i) (ih (i + 1))
+    · exact Nat.le_refl _
+
+/-- the `while` loop stops at an index whose name is free -/
+theorem nextFree_free (used : List Nat) : ∀ (fuel i : Nat), used.sum < fuel + i →
+    2 * nextFree used fuel i ∉ used := by
+  intro fuel
+  induction fuel with
+  | zero =>
+    intro i h hm
+    have := le_sum_of_mem hm
+    simp only [nextFree] at this; omega
+  | succ k ih =>
+    intro i h
+    unfold nextFree
+    split
+    · exact ih (i + 1) (by omega)
+    · rename_i hc
+      intro hm; exact hc (List.contains_iff_mem.mpr hm)
+
+theorem freshFrom_spec (used : List Nat) : ∀ (n i : Nat),
+    (freshFrom used n i).length = n ∧ (∀ x ∈ freshFrom used n i, x ∉ used ∧ 2 * i ≤ x) ∧
+    (freshFrom used n i).Nodup := by
+  intro n
+  induction n with
+  | zero => intro i; simp [freshFrom]
+  | succ k ih =>
+    intro i
+    simp only [freshFrom]
+    obtain ⟨h1, h2, h3⟩ := ih (nextFree used (used.sum + 1) i + 1)
+    have hge := nextFree_ge used (used.sum + 1) i
+    refine ⟨by simp [h1], ?_, ?_⟩
+    · intro x hx
+      rcases List.mem_cons.mp hx with rfl | hx
+      · exact ⟨nextFree_free used _ i (by omega), by omega⟩
+      · have := h2 x hx; exact ⟨this.1, by omega⟩
+    · rw [List.nodup_cons]
+      refine ⟨fun hm => ?_, h3⟩
+      have := (h2 _ hm).2; omega
+
+theorem freshNames_spec (used : List Nat) (n : Nat) :
+    (freshNames used n).length = n ∧ (∀ x ∈ freshNames used n, x ∉ used) ∧
+    (freshNames used n).Nodup :=
+  let ⟨a, b, c⟩ := freshFrom_spec used n 1
+  ⟨a, fun x hx => (b x hx).1, c⟩
 
 end Holpy.C15
